@@ -181,10 +181,13 @@ def gpg_cleartext(signed, faketime=BEFORE_EXPIRY):
                        capture_output=True, timeout=60)
     good = b'[GNUPG:] GOODSIG' in p.stderr and b'[GNUPG:] VALIDSIG' in p.stderr and p.returncode == 0
     gpg_cleartext.last_fpr = None
+    gpg_cleartext.n_sigs = 0
     for l in p.stderr.split(b'\n'):
         if l.startswith(b'[GNUPG:] VALIDSIG '):
             sp = l.split(b' ')
             gpg_cleartext.last_fpr = sp[-1].decode('ascii', 'replace')
+        if l.startswith((b'[GNUPG:] VALIDSIG ', b'[GNUPG:] ERRSIG ', b'[GNUPG:] BADSIG ')):
+            gpg_cleartext.n_sigs += 1
     try:
         return p.stdout.decode('utf8'), good
     except UnicodeDecodeError:
